@@ -12,6 +12,7 @@ import shutil
 import subprocess
 import sys
 
+SLOT_BASE = 0
 VERIF = os.path.dirname(os.path.dirname(os.path.abspath(__file__)))
 
 
@@ -20,6 +21,7 @@ def sh(cmd, **kw):
 
 
 def worker(slot, jobs_list, checks):
+    slot += SLOT_BASE
     vm, mw = '/tmp/vm%d' % slot, '/tmp/mw%d' % slot
     sh('git -C /repo worktree remove --force %s; rm -rf %s %s' % (mw, vm, mw))
     sh('git -C /repo worktree add -q --detach %s HEAD' % mw)
@@ -56,8 +58,11 @@ def main():
     ap = argparse.ArgumentParser()
     ap.add_argument('--checks')
     ap.add_argument('--jobs', type=int, default=4)
+    ap.add_argument('--slot-base', type=int, default=0)
     ap.add_argument('ids', nargs='*')
     a = ap.parse_args()
+    global SLOT_BASE
+    SLOT_BASE = a.slot_base
     man = json.load(open(os.path.join(VERIF, 'MANIFEST.json')))
     checks = a.checks.split(',') if a.checks else [c['property_id'] for c in man['checks']]
     ids = a.ids or sorted(d for d in os.listdir(os.path.join(VERIF, 'seeded'))
